@@ -24,7 +24,22 @@ func runC11(c *Ctx) {
 	strict := g.Chance(1, 5)
 	allowDisclose := g.Bool()
 	history := g.Bool()
+	reuse := g.Bool() // an application that fills in one RealmConfig value again and again
+	var first *router.RealmConfig
 	mk := func(uri string) (*router.RealmConfig, *MRealm) {
+		if reuse && uri == "r3" && first != nil {
+			// the same struct as r1's, changed in place: r1 must not notice
+			first.URI = "r3"
+			first.EnableMetaKill = false
+			m := NewMRealm(uri, strict, allowDisclose)
+			m.NoKill = true
+			if history {
+				m.ConfigHistory("a.b", "exact", 3)
+				m.ConfigHistory("a.", "prefix", 2)
+			}
+			c.Probe("realm_config_struct_reused")
+			return first, m
+		}
 		rc := &router.RealmConfig{URI: wamp.URI(uri), StrictURI: strict, AllowDisclose: allowDisclose, AnonymousAuth: true, EnableMetaKill: true,
 			Authenticators: []auth.Authenticator{&StaticAuth{Roles: seqRoles}}}
 		m := NewMRealm(uri, strict, allowDisclose)
@@ -36,6 +51,7 @@ func runC11(c *Ctx) {
 		return rc, m
 	}
 	c1, m1 := mk("r1")
+	first = c1
 	c2, m2 := mk("r2")
 	cfg := &router.Config{RealmConfigs: []*router.RealmConfig{c1, c2}}
 	template := g.Chance(1, 3)
